@@ -67,6 +67,10 @@ def contracts_(c, args, ctx):
         d(args[0]).b.append(args[1]); return None
     if re.match(r"Vec::<u8>::new$", c) or c == "Vec::<u8>::with_capacity":
         return Sink([])
+    if c == "<Vec<u8> as Clone>::clone":
+        return Sink(list(d(args[0]).b))
+    if c == "Vec::<u8>::as_slice":
+        return d(args[0])
     if re.match(r"Vec::<u8>::len$", c):
         return len(d(args[0]).b)
     if re.match(r"<Vec<u8> as Deref>::deref$", c) or re.match(r"<Vec<u8> as DerefMut>::deref_mut$", c):
@@ -98,8 +102,10 @@ def contracts_(c, args, ctx):
 
 
 def walk_items(b, start, end, problems, depth=0):
-    """PS3.8 9.3.2 item walker: type(1) reserved(1) length(2 BE) content; returns True if items tile [start, end) exactly"""
+    """PS3.8 9.3.2 / PS3.7 D.3.3 item walker: type(1) reserved(1) length(2 BE) content; the items must tile [start, end) exactly, and the
+    length fields nested in the sub-items (UID-length, primary/secondary field length) must agree with the item length"""
     at = start
+    u16 = lambda o: (b[o] << 8) | b[o + 1]
     while at < end:
         if end - at < 4:
             problems.append("dangling %d byte(s) at offset %d" % (end - at, at)); return False
@@ -109,10 +115,33 @@ def walk_items(b, start, end, problems, depth=0):
         ln = (l1 << 8) | l0
         if at + 4 + ln > end:
             problems.append("item 0x%02x at offset %d declares %d bytes, only %d left" % (ty, at, ln, end - at - 4)); return False
+        c = at + 4
+        inner = None
         if ty == 0x20 or ty == 0x21:            # presentation context: id(1) res(1) result/res(1) res(1) then sub-items
             walk_items(b, at + 8, at + 4 + ln, problems, depth + 1)
         elif ty == 0x50:                        # user information: sub-items
             walk_items(b, at + 4, at + 4 + ln, problems, depth + 1)
+        elif ty == 0x51:
+            inner = [4]
+        elif ty == 0x54:                        # role selection: uid-length(2) uid scu(1) scp(1)
+            inner = [b[c], b[c + 1]] if ln >= 2 else None
+            if inner and all(isinstance(x, int) for x in inner): inner = [2 + u16(c) + 2]
+        elif ty == 0x56:                        # extended negotiation: uid-length(2) uid app-info
+            inner = [b[c], b[c + 1]] if ln >= 2 else None
+            if inner and all(isinstance(x, int) for x in inner): inner = range(2 + u16(c), 1 << 17)
+        elif ty == 0x58:                        # user identity: type(1) prr(1) plen(2) primary slen(2) secondary
+            hd = [b[c + 2], b[c + 3]] if ln >= 6 else None
+            if hd and all(isinstance(x, int) for x in hd):
+                pl = u16(c + 2)
+                tl = [b[c + 4 + pl], b[c + 5 + pl]] if ln >= 6 + pl else None
+                inner = [6 + pl + u16(c + 4 + pl)] if tl and all(isinstance(x, int) for x in tl) else tl
+            else:
+                inner = hd
+        if ty in (0x51, 0x54, 0x56, 0x58):
+            if inner is None or (isinstance(inner, list) and any(not isinstance(x, int) for x in inner)):
+                problems.append("item 0x%02x at offset %d: nested length field missing or symbolic" % (ty, at))
+            elif ln not in inner:
+                problems.append("item 0x%02x at offset %d: item length %d disagrees with its nested length fields" % (ty, at, ln))
         at += 4 + ln
     return at == end
 
@@ -135,17 +164,36 @@ def run(rep, tier, seed, known, part):
     core.EXTRA_CONTRACTS[:] = [contracts]
     core.DISC.update({"Unknown": 0, "AssociationRQ": 1, "AssociationAC": 2, "AssociationRJ": 3, "PData": 4, "ReleaseRQ": 5, "ReleaseRP": 6, "AbortRQ": 7,
                       "MaxLength": 1, "ImplementationClassUID": 2, "ImplementationVersionName": 3, "SopClassExtendedNegotiationSubItem": 4,
-                      "ScuScpRoleSelectionSubItem": 5, "UserIdentityItem": 6})
+                      "ScuScpRoleSelectionSubItem": 5, "UserIdentityItem": 6,
+                      "Acceptance": 0, "UserRejection": 1, "NoReason": 2, "AbstractSyntaxNotSupported": 3, "TransferSyntaxesNotSupported": 4,
+                      "Username": 0, "UsernamePassword": 1, "KerberosServiceTicket": 2, "SamlAssertion": 3, "Jwt": 4})
     WRITE = next(n for n in core.FNS if n == "write_pdu")
     rep.functions += ["dicom_ul::pdu::writer::write_pdu (A-ASSOCIATE-RQ arm, all closures)", "write_pdu_variable_application_context_name / _presentation_context_proposed / _user_variables",
                       "write_chunk_u16 / write_chunk_u32"]
     nat = native.Native()
     # instances: lengths of the UIDs are concrete per instance (they decide the shape of the output), their characters are symbolic
     uid_lens = [(1, 1, 1), (2, 3, 1), (3, 2, 2)] if tier == "quick" else [(a, b, c) for a in (1, 2, 3) for b in (1, 2, 3) for c in (1, 2)]
-    for (la, lt, lu) in uid_lens:
+    insts = [("rq", l) for l in uid_lens] + [("ac", l) for l in (uid_lens[1:2] if tier == "quick" else uid_lens)]
+
+    def check_bytes(b):
+        problems = []
+        # PDU header: type 01/02, reserved, 32-bit length == bytes that follow
+        hdr = [x if isinstance(x, int) else None for x in b[:6]]
+        if None in hdr[:6]:
+            problems.append("symbolic PDU header")
+        else:
+            if hdr[0] not in (1, 2) or hdr[1] != 0:
+                problems.append("PDU type / reserved byte")
+            if int.from_bytes(bytes(hdr[2:6]), "big") != len(b) - 6:
+                problems.append("PDU length %d != %d bytes that follow" % (int.from_bytes(bytes(hdr[2:6]), "big"), len(b) - 6))
+        # fixed part: protocol(2) reserved(2) called(16) calling(16) reserved(32) = 68 bytes, then variable items
+        walk_items(b, 6 + 68, len(b), problems)
+        return problems
+
+    for (kind, (la, lt, lu)) in insts:
         box = {}
 
-        def build(ctx, la=la, lt=lt, lu=lu):
+        def build(ctx, kind=kind, la=la, lt=lt, lu=lu):
             pc = ctx.pc
             uv = core.VecV([
                 core.Enum("MaxLength", [BitVec("maxlen", 32)]),
@@ -153,51 +201,46 @@ def run(rep, tier, seed, known, part):
                 core.Enum("ScuScpRoleSelectionSubItem", [sym_str("role_uid", lu, pc), core.Struct([Bool("scu"), Bool("scp")])]),
                 core.Enum("SopClassExtendedNegotiationSubItem", [sym_str("ext_uid", lu, pc), Sink([BitVec("ext0", 8), BitVec("ext1", 8)])]),
                 core.Enum("ImplementationVersionName", [sym_str("ivn", lu, pc)]),
-                core.Enum("Unknown", [0x7F, Sink([BitVec("unk0", 8)])]),
+                core.Enum("UserIdentityItem", [core.Struct([Bool("prr"), core.Enum("UsernamePassword", []), Sink([BitVec("pf0", 8), BitVec("pf1", 8)]), Sink([BitVec("sf0", 8)])])]),
+                core.Enum("Unknown", [0x77, Sink([BitVec("unk0", 8)])]),
             ])
-            pcs = core.VecV([core.Struct([BitVec("pcid", 8), sym_str("abs", la, pc), core.VecV([sym_str("ts0_", lt, pc), sym_str("ts1_", 1, pc)])])])
-            rq = core.Struct([BitVec("proto", 16), S("CALLING"), S("CALLED-AE"), sym_str("appctx", la, pc), pcs, uv])
-            pdu = core.Enum("AssociationRQ", [rq])
+            if kind == "rq":
+                pcs = core.VecV([core.Struct([BitVec("pcid", 8), sym_str("abs", la, pc), core.VecV([sym_str("ts0_", lt, pc), sym_str("ts1_", 1, pc)])])])
+                pdu = core.Enum("AssociationRQ", [core.Struct([BitVec("proto", 16), S("CALLING"), S("CALLED-AE"), sym_str("appctx", la, pc), pcs, uv])])
+            else:
+                pcs = core.VecV([core.Struct([BitVec("pcid", 8), core.Enum("Acceptance", []), sym_str("ts0_", lt, pc)]),
+                                 core.Struct([BitVec("pcid2", 8), core.Enum("TransferSyntaxesNotSupported", []), sym_str("ts1_", 1, pc)])])
+                pdu = core.Enum("AssociationAC", [core.Struct([BitVec("proto", 16), S("CALLING"), S("CALLED-AE"), sym_str("appctx", la, pc), pcs, uv])])
             sink = Sink([])
             r = core.run_fn(WRITE, [core.Ref(core.Cell(sink)), core.Ref(core.Cell(pdu))], ctx)
             box["bytes"] = list(sink.b)
             box["r"] = r
             if r.variant != "Ok":
                 return BoolVal(True)
-            b = sink.b
-            problems = []
-            # PDU header: type 01, reserved, 32-bit length == bytes that follow
-            hdr = [x if isinstance(x, int) else None for x in b[:6]]
-            if None in hdr[:6]:
-                problems.append("symbolic PDU header")
-            else:
-                if hdr[0] != 1 or hdr[1] != 0:
-                    problems.append("PDU type / reserved byte")
-                if int.from_bytes(bytes(hdr[2:6]), "big") != len(b) - 6:
-                    problems.append("PDU length %d != %d bytes that follow" % (int.from_bytes(bytes(hdr[2:6]), "big"), len(b) - 6))
-            # fixed part: protocol(2) reserved(2) called(16) calling(16) reserved(32) = 68 bytes, then variable items
-            walk_items(b, 6 + 68, len(b), problems)
+            problems = check_bytes(sink.b)
             box["problems"] = problems
-            if os.environ.get("C25RQ_DUMP"): print([x if isinstance(x, int) else "?" for x in b])
+            if os.environ.get("C25RQ_DUMP"): print([x if isinstance(x, int) else "?" for x in sink.b])
             return BoolVal(bool(problems))
 
         res = core.explore(build)
         rep.nontrivial += res["paths"]
-        name = "A-ASSOCIATE-RQ (UID lengths %d/%d/%d, every user sub-item kind): every item length field matches its content (independent PS3.8 item walker)" % (la, lt, lu)
+        K = "A-ASSOCIATE-%s" % kind.upper()
+        name = "%s (UID lengths %d/%d/%d, every user sub-item kind): every item and nested length field matches its content (independent PS3.8 item walker)" % (K, la, lt, lu)
+        real = nat.ask("assoc_bytes", kind, la, lt, lu)
+        rb = list(bytes.fromhex(real[4:])) if real.startswith("HEX ") else None
+        real_problems = check_bytes(rb) if rb is not None else [real]
         if res["violation"]:
-            real = nat.ask("rq_items", la, lt, lu)
-            rp = rep.replay_file("c25_rq_%d%d%d" % (la, lt, lu), "// engine=M case=c25rq\n// native: rq_items %d %d %d\n// encoding: %s\n// real bytes walked natively: %s\n" % (la, lt, lu, box.get("problems"), real))
-            if real.startswith("BAD"):
-                rep.violations.append(("A-ASSOCIATE-RQ length fields: %s (native: %s)" % (box.get("problems"), real), rp))
-                rep.obligation(name, "violated", {"problems": box.get("problems"), "native": real})
+            rp = rep.replay_file("c25_%s_%d%d%d" % (kind, la, lt, lu), "// engine=M case=c25rq\n// native: assoc_bytes %s %d %d %d\n// encoding: %s\n// real bytes %s\n// walked: %s\n" % (kind, la, lt, lu, box.get("problems"), real, real_problems))
+            if real_problems:
+                rep.violations.append(("%s length fields: %s (real bytes: %s)" % (K, box.get("problems"), real_problems), rp))
+                rep.obligation(name, "violated", {"problems": box.get("problems"), "native": real_problems})
             else:
-                rep.inconclusive.append("C25 association PDU counterexample does not reproduce natively: %s vs %s" % (box.get("problems"), real))
-                rep.obligation(name, "inconclusive", {"problems": box.get("problems"), "native": real})
+                rep.inconclusive.append("C25 association PDU counterexample does not reproduce natively: %s vs %s" % (box.get("problems"), real[:40]))
+                rep.obligation(name, "inconclusive", {"problems": box.get("problems"), "native": real[:80]})
         else:
-            real = nat.ask("rq_items", la, lt, lu)
             rep.validated += 1
-            if not real.startswith("OK %d" % len(box.get("bytes", []))):
-                rep.inconclusive.append("native A-ASSOCIATE-RQ has %s, the encoding produced %d bytes" % (real, len(box.get("bytes", []))))
+            if rb is None or len(rb) != len(box.get("bytes", [])) or real_problems:
+                rep.inconclusive.append("native %s has %s bytes / %s, the encoding produced %d bytes" % (K, len(rb or []), real_problems, len(box.get("bytes", []))))
             rep.obligation(name, "holds", {"paths": res["paths"], "bytes": len(box.get("bytes", []))})
     nat.close()
     core.EXTRA_CONTRACTS[:] = []
